@@ -13,6 +13,8 @@ SCOPE = ("Decides the disconnect mechanism at both endpoints: the request is tra
          "Disconnect. Not decided: that Reliable packets arrive before the peer's Disconnect (needs C02's "
          "liveness); the 22 s bound as wall-clock behaviour.")
 
+DECISION_POLARITY = {}   # fn -> (local of the decision flag, True when the flag means "disconnect now")
+
 SIDES = [
     ("client::Client::step_if_active", "client", "UdpSocket::send"),
     ("server::Server::step_active_clients", "server", "UdpSocket::send_to"),
@@ -48,6 +50,11 @@ def run(cx):
                         table[mode] = v
                 inst.site(b, loc, "%s: disconnect_now = %s" % (side, v[:80]))
             ok = table.get("Now") == "true" and table.get("None") == "false" and re.fullmatch(r"not\(HalfConnection::is_send_pending\([\w:.@\[\](),]*half_connection\)\)", table.get("Flush", ""))
+            # the same decision with the opposite polarity (`stay_active`): {Now: false, Flush: is_send_pending(), None: true}
+            neg = table.get("Now") == "false" and table.get("None") == "true" and re.fullmatch(r"HalfConnection::is_send_pending\([\w:.@\[\](),]*half_connection\)", table.get("Flush", ""))
+            if neg:
+                ok = True
+            DECISION_POLARITY[fn] = (l, not neg)
             if not ok:
                 inst.violation(b.path, "disconnect_now table", "%s decides to disconnect as %s; expected {Now: true, Flush: !is_send_pending(), None: false}" % (side, table))
             # the DisconnectFrame is sent only under the decision
@@ -56,7 +63,7 @@ def run(cx):
             if not sends:
                 # the request bytes may be a local: accept any send in this body
                 sends = call_sites(b, sendfn)
-            cx.guard(inst, b, sends, [[r"var%d" % l]], construct="disconnect request without decision", why="the request must go out only when disconnect_now holds")
+            cx.guard(inst, b, sends, [[r"!var%d" % l if neg else r"var%d" % l]], construct="disconnect request without decision", why="the request must go out only when disconnect_now holds")
         isp = R.body("HalfConnection::is_send_pending")
         from rules import return_alts
         from mirlib import alt_satisfies
@@ -183,7 +190,7 @@ def run(cx):
             quiet += [k for k, lits in fe.edge_lits.items() if any(re.fullmatch(r"is\(HashMap::get\(arg1\.clients,arg2\),None\)", x) for x in lits)]
             for l in acks:
                 inst.site(b, l, "DisconnectAck send")
-            w = b.reach_exit_avoiding_edges(acks, quiet) if acks else [0]
+            w = b.reach_exit_avoiding_flags(0, acks, fe, blocked_edges=quiet) if acks else [0]
             if w is not None:
                 inst.violation(b.path, "DisconnectAck", "a disconnect request can go unacknowledged in a state other than Pending/Fin", detail={"offending_path": b.path_spans(w)[:16]})
 
